@@ -1086,7 +1086,7 @@ def j(ctx):
         "Message.transport_tuning is not a plain instance attribute")
     try:
         be = ClassEval(prog, BASE)
-        ref = be.get("EXCHANGE_LIFETIME")
+        ref = be.number("EXCHANGE_LIFETIME")
     except Unsupported as ex:
         raise AnalysisError("TransportTuning.EXCHANGE_LIFETIME cannot be evaluated: %s" % ex)
     deps = set(be.deps)
@@ -1217,7 +1217,7 @@ def j(ctx):
     for q in sorted(carried):
         try:
             ce = ClassEval(prog, q)
-            values[q] = ce.get("EXCHANGE_LIFETIME")
+            values[q] = ce.number("EXCHANGE_LIFETIME")
             all_deps |= set(ce.deps)
         except Unsupported as ex:
             raise AnalysisError("EXCHANGE_LIFETIME of %s (a tuning class a received message may carry) cannot be evaluated: %s" % (q.split(".")[-1], ex))
